@@ -6,6 +6,7 @@ import Pfl.Model.RegexToCFG
 import Pfl.Model.PyRegex
 import Pfl.Model.PyRender
 import Pfl.Model.PyRegexPasses
+import Pfl.Model.RegexObject
 import PflDrv.CFG
 open Lean Pfl
 namespace PflDrv
@@ -82,6 +83,35 @@ partial def asPy (j : Json) : R PyRx.P := do
     | _ => throw "bad pattern"
   | _ => throw "bad pattern"
 
+/-- an operation of a history on regex objects (`Pfl/Model/RegexObject.lean`) -/
+def asRxObjOp (j : Json) : R RxObj.Op := do
+  match ← asStr (← field j "op") with
+  | "new" => pure (.new (← asRx (← field j "tree")))
+  | "union" => pure (.union (← asNat (← field j "i")) (← asNat (← field j "j")))
+  | "concat" => pure (.concat (← asNat (← field j "i")) (← asNat (← field j "j")))
+  | "star" => pure (.star (← asNat (← field j "i")))
+  | "toENFA" => pure (.toENFA (← asNat (← field j "i")))
+  | "accepts" => pure (.accepts (← asNat (← field j "i")) (← asStrList (← field j "w")))
+  | o => throw s!"bad regex object op {o}"
+
+def jRxObjOut : RxObj.Out → Json
+  | .addr i => Json.mkObj [("addr", jNat i)]
+  | .fa A => Json.mkObj [("fa", jENFA jNat A)]
+  | .bool b => Json.mkObj [("bool", jBool b)]
+
+/-- the hidden state: per object its counter, its sons and the cached automaton -/
+def jRxHeap (H : RxObj.Heap) : Json :=
+  jList (fun (o : RxObj.Obj) => Json.mkObj [("counter", jNat o.counter), ("sons", jNatList o.sons),
+    ("acc", jOpt (jENFA jNat) o.acc)]) H
+
+/-- a history from the empty heap: after every call the answer and the heap -/
+def rxObjRun (code : String → Nat) : RxObj.Heap → List RxObj.Op → List Json
+  | _, [] => []
+  | H, op :: ops =>
+    match RxObj.step code (H.length + 200) H op with
+    | none => [Json.null]
+    | some (o, H1) => Json.mkObj [("out", jRxObjOut o), ("heap", jRxHeap H1)] :: rxObjRun code H1 ops
+
 def rxHandle (op : String) (j : Json) : R Json := do
   match op with
   | "rx.parse" =>
@@ -104,6 +134,10 @@ def rxHandle (op : String) (j : Json) : R Json := do
     let c ← asNat (← field j "counter")
     let (A, c') := t.thompson (codeOf names) c
     pure (Json.mkObj [("fa", jENFA jNat A), ("counter", jNat c')])
+  | "rx.objRun" =>   -- model of Regex objects: a history of public calls (C19)
+    let names ← asStrList (← field j "symNames")
+    let ops ← (← asArr (← field j "ops")).mapM asRxObjOp
+    pure (Json.arr (rxObjRun (codeOf names) [] ops).toArray)
   | "rx.equiv" =>   -- oracle: same language?
     let t1 ← asRx (← field j "t1")
     let t2 ← asRx (← field j "t2")
